@@ -41,6 +41,7 @@ void verif_assert(int c, char const *id) { if (!c) { std::printf("ASSERTION FAIL
 void verif_reach(void) { std::printf("REACHED\n"); }
 int verif_str_eq(char const *a, char const *b) { return a == b || (a && b && std::strcmp(a, b) == 0); }
 int verif_msg_has(char const *hay, char const *needle) { return hay && needle && std::strstr(hay, needle) != nullptr; }
+int verif_str_eq_lit(char const *a, char const *b) { return a == b || (a && b && std::strcmp(a, b) == 0); }
 int verif_msg_starts(char const *hay, char const *lit) { return std::strncmp(hay, lit, std::strlen(lit)) == 0; }
 unsigned verif_watch_str(char const *s) { ws.push_back(s); return (unsigned)ws.size() - 1; }
 unsigned verif_watch_num(unsigned long v) { wn.push_back(v); return (unsigned)wn.size() - 1; }
